@@ -84,6 +84,8 @@ int main(int argc, char **argv)
             const QJsonObject o = a.toObject();
             msg.setAttribute(fromUnits(o["k"].toArray()), variantOf(o["v"].toObject()));
         }
+        if (c["hasprefmt"].toBool())
+            msg.setFormattedMessage(fromUnits(c["prefmt"].toArray()));
         const QString mode = c["mode"].toString();
         QString res;
         if (mode == "sentry")
